@@ -96,6 +96,40 @@ fn ord_str(o: Ordering) -> &'static str {
 fn leak_str(s: &str) -> &'static str {
     Box::leak(s.to_string().into_boxed_str())
 }
+/// Per-case arena of leaked strings in which a string that is a proper prefix of another string of the case is a
+/// SUB-SLICE of that string's buffer (same start address, shorter length), and equal strings share one buffer.
+/// Static keys built from such slices alias each other the way `&FULL[..n]` and `FULL` do.
+struct Arena(Vec<&'static str>);
+impl Arena {
+    fn new(contents: &[Content]) -> Arena {
+        let mut all: Vec<String> = Vec::new();
+        for (n, ls) in contents {
+            all.push(n.clone());
+            for (k, v) in ls {
+                all.push(k.clone());
+                all.push(v.clone());
+            }
+        }
+        all.sort_by(|a, b| b.len().cmp(&a.len()).then(a.cmp(b)));
+        all.dedup();
+        let mut bufs: Vec<&'static str> = Vec::new();
+        for s in all {
+            if !bufs.iter().any(|b| b.starts_with(s.as_str())) {
+                bufs.push(leak_str(&s));
+            }
+        }
+        Arena(bufs)
+    }
+    fn get(&self, s: &str) -> &'static str {
+        match self.0.iter().find(|b| b.starts_with(s)) {
+            Some(b) => &b[..s.len()],
+            None => leak_str(s),
+        }
+    }
+    fn labels(&self, ls: &[(String, String)]) -> Vec<Label> {
+        ls.iter().map(|(k, v)| Label::from_static_parts(self.get(k), self.get(v))).collect()
+    }
+}
 fn static_labels(ls: &[(String, String)]) -> &'static [Label] {
     let v: Vec<Label> = ls.iter().map(|(k, v)| Label::from_static_parts(leak_str(k), leak_str(v))).collect();
     Box::leak(v.into_boxed_slice())
@@ -141,7 +175,7 @@ impl Recorder for Capture {
 }
 
 /// every public way to obtain a key with this content; `(path name, key)`
-fn variants(c: &Content, r: &mut Rng) -> Vec<(&'static str, Key)> {
+fn variants(c: &Content, r: &mut Rng, arena: &Arena) -> Vec<(&'static str, Key)> {
     let (name, ls) = c;
     let n = ls.len();
     let mut v: Vec<(&'static str, Key)> = Vec::new();
@@ -169,6 +203,20 @@ fn variants(c: &Content, r: &mut Rng) -> Vec<(&'static str, Key)> {
             Key::from_static_parts(leak_str(name), static_labels(&ls[..i]))
         };
         v.push(("with_extra_labels", base.with_extra_labels(mixed_labels(&ls[i..], i))));
+    }
+    // static strings that ALIAS other strings of the case (sub-slices of one buffer: same address, other length)
+    {
+        let al: &'static [Label] = Box::leak(arena.labels(ls).into_boxed_slice());
+        v.push(("from_static_parts(aliased strs)", Key::from_static_parts(arena.get(name), al)));
+        v.push(("from_parts(aliased &'static)", Key::from_parts(arena.get(name), arena.labels(ls))));
+        // the label slice itself as a prefix of a longer static slice (same address, shorter length)
+        let mut longer = arena.labels(ls);
+        longer.push(Label::from_static_parts("zz-extra", "1"));
+        let longer: &'static [Label] = Box::leak(longer.into_boxed_slice());
+        v.push(("from_static_parts(prefix of longer slice)", Key::from_static_parts(arena.get(name), &longer[..n])));
+        if n > 0 {
+            v.push(("from_static_labels(sub-slice + extra)", Key::from_static_labels(arena.get(name), &longer[..n - 1]).with_extra_labels(vec![Label::new(arena.get(&ls[n - 1].0), arena.get(&ls[n - 1].1))])));
+        }
     }
     // clones: of an eagerly hashed key, of a lazily hashed key before and after its first get_hash()
     v.push(("clone(built)", v[0].1.clone()));
@@ -241,7 +289,8 @@ fn is_perm(a: &Content, b: &Content) -> bool {
 /// `extra`: further keys (from literal macros) to be treated as variants of content `extra.0`
 fn examine(contents: &[Content], extra: Vec<(usize, &'static str, Key)>, r: &mut Rng, out: &mut Out) {
     let m = contents.len();
-    let mut vars: Vec<Vec<(&'static str, Key)>> = contents.iter().map(|c| variants(c, r)).collect();
+    let arena = Arena::new(contents);
+    let mut vars: Vec<Vec<(&'static str, Key)>> = contents.iter().map(|c| variants(c, r, &arena)).collect();
     for (i, p, k) in extra {
         vars[i].push((p, k));
     }
@@ -670,7 +719,21 @@ fn gen_contents(r: &mut Rng, out: &mut Out) -> Vec<Content> {
     // an independent draw, mostly the same name and length
     let n2 = if r.chance(2, 3) { n } else if n > 0 && r.chance(1, 2) { n - 1 } else { n + 1 };
     let indep: Content = (if r.chance(3, 4) { knames[0] } else { knames[1] }.to_string(), draw(r, n2));
-    vec![base, perm, mutn, indep]
+    // the base with ONE string replaced by a proper prefix / an extension of itself (so that, built from one
+    // static buffer, the two strings start at the same address and differ only in length)
+    let mut pfx = base.clone();
+    {
+        let slot = r.below(1 + 2 * n);
+        let target: &mut String = if slot == 0 { &mut pfx.0 } else if slot % 2 == 1 { &mut pfx.1[(slot - 1) / 2].0 } else { &mut pfx.1[(slot - 1) / 2].1 };
+        if !target.is_empty() && r.chance(1, 2) {
+            let cut = if r.chance(1, 3) { 0 } else { target.char_indices().map(|(i, _)| i).last().unwrap_or(0) };
+            target.truncate(cut);
+        } else {
+            target.push_str(*r.pick(&["x", "0", "é"][..]));
+        }
+        out.count("content: one string replaced by a prefix/extension");
+    }
+    vec![base, perm, mutn, indep, pfx]
 }
 
 fn c(name: &str, ls: &[(&str, &str)]) -> Content {
